@@ -1,5 +1,7 @@
 import QibProofs.Lemmas.TNetPublicValue
 import QibProofs.Lemmas.TNetPublicGen
+import QibProofs.Lemmas.TNetPublicWrap
+import QibProofs.Lemmas.TNetPublicData
 import QibProofs.Properties.C08
 import Mathlib.Algebra.Ring.Int.Defs
 /-!
@@ -307,6 +309,78 @@ theorem C08_mergeBonds_counts {net net' : Net} {bid1 bid2 : Int} (h : Inv net) (
   · rw [numOpenAxes_eq hv', numOpenAxes_eq hv]
   · unfold netShape virt; rw [hv', hv]; rfl
 
+/-! ### `TensorNetwork.is_consistent` (with the data dictionary) -/
+
+/-- **`merge_bonds` keeps a `TensorNetwork` consistent with its data** (bonds of one dimension): no tensor changes its shape or its data
+reference -/
+theorem C08_mergeBonds_consistentData {net net' : Net} {bid1 bid2 : Int} (h : Inv net)
+    (hd : bondDim net bid1 = bondDim net bid2) (hok : mergeBondsP net bid1 bid2 = ⟨none, net'⟩) (data : Data)
+    (hdat : isConsistentData net data = .ok true) : isConsistentData net' data = .ok true := by
+  have h' := C08_mergeBonds_consistent h hd hok
+  rw [isConsistentData_ok_true_iff] at hdat ⊢
+  refine ⟨h'.2, ?_⟩
+  by_cases hne : bid1 = bid2
+  · subst hne
+    rw [mergeBondsP_ok_iff, mergeBonds_self] at hok
+    rw [← Except.ok.inj hok]; exact hdat.2
+  · obtain ⟨B1, B2, _, _, rfl⟩ := mergeBonds_spec ((C08_inv_iff_wf net).mp h).toWF0 hne ((mergeBondsP_ok_iff _ _ _ _).mp hok)
+    simp only
+    rw [dataOK_relTensors]; exact hdat.2
+
+/-- **`merge_tensors` of two real tensors leaves a `TensorNetwork` whose data check FAILS until the caller stores the product array**: the
+fused tensor keeps the first operand's data reference but has the concatenated shape (characterisation; `TensorNetwork` offers no
+`merge_tensors` of its own, the symbolic call is reached through `tn.net`) -/
+theorem C08_mergeTensors_consistentData_lost {net net' : Net} {tid1 tid2 : Int} {T2 : STensor} (h : Inv net)
+    (hne : tid1 ≠ tid2) (h1 : tid1 ≠ -1) (h2 : tid2 ≠ -1) (hT2 : dget net.tensors tid2 = some T2) (hs : T2.shape ≠ [])
+    (hok : mergeTensorsP net tid1 tid2 = ⟨none, net'⟩) (data : Data) (hdat : isConsistentData net data = .ok true) :
+    isConsistent net' = .ok true ∧ isConsistentData net' data = .ok false := by
+  have h' := C08_mergeTensors_consistent h h2 hok
+  have hw := (C08_inv_iff_wf net).mp h
+  obtain ⟨T1, T2', hT1, hT2', hnet⟩ := mergeTensors_spec hw.toWF0 hne ((mergeTensorsP_ok_iff _ _ _ _).mp hok)
+  rw [hT2] at hT2'; cases hT2'
+  refine ⟨h'.2, ?_⟩
+  rw [isConsistentData_ok_true_iff] at hdat
+  rw [isConsistentData_eq, h'.2]
+  simp only [bind, Except.bind, Bool.not_true, Bool.false_eq_true, if_false, pure, Except.pure]
+  congr 1
+  -- the fused tensor fails the data test
+  have hfused : dget net'.tensors tid1 = some (catTensor T1 T2) := by
+    rw [hnet]; simp only
+    rw [dget_dmodify, dget_dpop_ne _ hne, hT1]; simp
+  have hm' := mem_of_dget_eq_some _ hfused
+  have hm1 := mem_of_dget_eq_some _ hT1
+  have hk1 : T1.tid = tid1 := hw.tkey _ hm1
+  have hold := List.all_eq_true.mp hdat.2 _ hm1
+  have hne1 : (T1.tid == -1) = false := by rw [hk1]; simpa using h1
+  simp only [hne1, Bool.false_or] at hold
+  cases hb : dataOK net'.tensors data with
+  | false => rfl
+  | true =>
+    exfalso
+    have hnew := List.all_eq_true.mp hb _ hm'
+    have hne1' : ((catTensor T1 T2).tid == -1) = false := hne1
+    simp only [hne1', Bool.false_or] at hnew
+    have hr : (catTensor T1 T2).dataref = T1.dataref := rfl
+    rw [hr] at hnew
+    cases href : T1.dataref with
+    | none => rw [href] at hold; cases hold
+    | some r =>
+      rw [href] at hold hnew
+      simp only at hold hnew
+      cases hl : List.lookup r data with
+      | none => rw [hl] at hold; cases hold
+      | some d =>
+        rw [hl] at hold hnew
+        simp only [beq_iff_eq] at hold hnew
+        have : T1.shape = T1.shape ++ T2.shape := by
+          have e : d.shape = T1.shape ++ T2.shape := hnew
+          rw [← hold]; rw [hold] at e ⊢; exact e
+        have : T2.shape = [] := by
+          have := congrArg List.length this
+          simp only [List.length_append] at this
+          exact List.length_eq_zero_iff.mp (by omega)
+        exact hs this
+
 /-! ### (d) the queries agree with each other, on EVERY network -/
 
 /-- `has_tensor` says whether `get_tensor` returns (otherwise it raises `KeyError`) -/
@@ -502,6 +576,24 @@ theorem C08_addTensor_scalar_consistent {net : Net} (h : Inv net) (tid : Int) (s
   · rw [((C08_addTensor_accepts_iff net tid shape [] r).2) he]
     exact h
 
+/-- … and **only then**: a tensor with axes added to a consistent network is not referred to by any bond yet, the result fails the check
+(`add_tensor` + `add_bond` / `generate_bonds` are construction steps) -/
+theorem C08_addTensor_axes_breaks {net : Net} (h : Inv net) (tid : Int) (shape : List Nat) (bids : List Int) (r : Option Int)
+    (hb : bids ≠ []) (hacc : (addTensorP net tid shape bids r).err = none) :
+    ¬ Inv (addTensorP net tid shape bids r).net := by
+  rw [C08_addTensor_result net tid shape bids r hacc]
+  intro h'
+  have hw := (C08_inv_iff_wf net).mp h
+  have hw' := (C08_inv_iff_wf _).mp h'
+  have l1 := hw.legs.length_eq
+  have l2 := hw'.legs.length_eq
+  have e1 : tLegs ⟨net.tensors ++ [(tid, ⟨tid, shape, bids, r⟩)], net.bonds⟩ = tLegs net ++ bids.map (fun b => (tid, b)) := by
+    simp [tLegs]
+  have e2 : bLegs ⟨net.tensors ++ [(tid, ⟨tid, shape, bids, r⟩)], net.bonds⟩ = bLegs net := rfl
+  rw [e1, e2, List.length_append, List.length_map] at l2
+  have : bids.length ≠ 0 := fun hc => hb (List.length_eq_zero_iff.mp hc)
+  omega
+
 /-- **an accepted `add_bond` never leaves a consistent network consistent**: no tensor refers to the new bond yet (the two directions of
 the incidence no longer match). `add_tensor` / `add_bond` are construction steps; consistency is a property of the finished network. -/
 theorem C08_addBond_breaks {net : Net} (h : Inv net) (bid : Int) (tids : List Int)
@@ -577,6 +669,52 @@ theorem C08_generateBonds_rebuilds {net : Net} (h : Inv net) :
       cases B; simp_all
     · rw [if_neg hb]
       exact (dget_eq_none_of_notMem _ (fun hc => hb ((genIds_of_wf hw).mpr hc))).symm
+
+/-! ### `TensorNetwork.wrap` -/
+
+/-- **`wrap` of an array of ANY shape returns a consistent network** with one logical tensor, one bond per axis (each joining the tensor
+and the virtual tensor), the array's shape as logical shape, and the open axes in the order of the array's axes -/
+theorem C08_wrap_consistent (shape : List Nat) (r : Option Int) :
+    ∃ net, wrap shape r = .ok net ∧ Inv net ∧ numTensors net = .ok 1 ∧ numBonds net = shape.length ∧
+      numOpenAxes net = .ok shape.length ∧ netShape net = .ok shape ∧ tensorIds net = .ok [0] := by
+  refine ⟨wrapped shape r, wrap_eq shape r, (C08_inv_iff_wf _).mpr (wrapped_wf shape r), rfl, ?_, rfl, rfl, rfl⟩
+  simp [numBonds, wrapped, wrapAxes]
+
+/-- **a wrapped array contracts to itself**: `full (wrap a) D idx = D[dataref][idx]` for every index within the shape -/
+theorem C08_wrap_full {α : Type} [CommSemiring α] (shape : List Nat) (r : Option Int) (D : Option Int → List Nat → α)
+    (idx : List Nat) (hidx : idx.length = shape.length) : full (wrapped shape r) D idx = D r idx := by
+  have hinj : Function.Injective Int.ofNat := fun a b h => Int.ofNat.inj h
+  have hax : (wrapAxes shape.length).Nodup := List.Nodup.map hinj List.nodup_range
+  have hv : dget (wrapped shape r).tensors (-1) = some ⟨-1, shape, wrapAxes shape.length, none⟩ := rfl
+  rw [full_eq_sem _ D idx hv]
+  have hint : internalBids (wrapped shape r) ⟨-1, shape, wrapAxes shape.length, none⟩ = [] := by
+    simp only [internalBids, wrapped, dkeys, List.map_map, Function.comp_def, List.map_id']
+    rw [List.filter_eq_nil_iff]
+    intro a ha
+    simp [ha]
+  have hreal : realTs (wrapped shape r) = [(r, wrapAxes shape.length)] := rfl
+  rw [hint, hreal]
+  unfold sem
+  have hpin : pinsOK (wrapAxes shape.length) idx = true := by
+    rw [pinsOK_iff]
+    refine ⟨by simp [wrapAxes, hidx], fun k k' hk hk' he => ?_⟩
+    have : k = k' := by
+      rw [List.getElem?_eq_getElem hk, List.getElem?_eq_getElem hk'] at he
+      exact (hax.getElem_inj_iff).mp (Option.some.inj he)
+    rw [this]
+  rw [if_pos hpin]
+  simp only [sumOver_nil, tensorTerm, List.map_cons, List.map_nil, prodL, List.foldr_cons, List.foldr_nil, mul_one]
+  congr 1
+  apply List.ext_getElem?
+  intro k
+  by_cases hk : k < shape.length
+  · have hk' : k < (wrapAxes shape.length).length := by simp [wrapAxes, hk]
+    rw [List.getElem?_map, List.getElem?_eq_getElem hk']
+    simp only [Option.map_some]
+    exact pin_of_pinsOK _ idx (fun _ => 0) hpin k hk'
+  · have h1 : (wrapAxes shape.length).length ≤ k := by simp [wrapAxes]; omega
+    rw [List.getElem?_map, List.getElem?_eq_none h1, List.getElem?_eq_none (by omega)]
+    rfl
 
 /-! ### (e) histories over the enlarged operation set -/
 
@@ -781,6 +919,16 @@ example : (mergeBondsP ⟨[(0, ⟨0, [2, 2], [0, 1], none⟩)], [(0, ⟨0, [0, 3
     ⟨some .keyError, ⟨[(0, ⟨0, [2, 2], [0, 0], none⟩)], [(0, ⟨0, [0, 3, 0, 2]⟩)]⟩⟩ := by decide +kernel
 example : (generateBondsP ⟨abNet.tensors, []⟩).net = abNet := by decide +kernel
 example : wrap [2, 3] (some 7) = .ok wrapNet := by decide +kernel
+/-- `generate_bonds` stopped by the `SymbolicBond` constructor at bond 1 (a single axis): bond 0 has already been added -/
+example : generateBondsP ⟨[(0, ⟨0, [2, 2], [0, 1], none⟩), (-1, ⟨-1, [2], [0], none⟩)], []⟩ =
+    ⟨some .valueError, ⟨[(0, ⟨0, [2, 2], [0, 1], none⟩), (-1, ⟨-1, [2], [0], none⟩)], [(0, ⟨0, [-1, 0]⟩)]⟩⟩ := by decide +kernel
+example : TensOK abNet.tensors := ⟨by decide, by decide, by decide, by decide, by decide⟩
+example : generateBondsP abNet = ⟨some .runtimeError, abNet⟩ := by decide +kernel
+example : addBondP abNet 0 [0, 1] = ⟨some .valueError, abNet⟩ := by decide +kernel
+example : addBondP abNet 5 [1] = ⟨some .valueError, abNet⟩ := by decide +kernel
+example : addTensorP abNet 1 [] [] none = ⟨some .valueError, abNet⟩ := by decide +kernel
+example : addTensorP abNet 5 [2] [] none = ⟨some .valueError, abNet⟩ := by decide +kernel
+example : isConsistentData abNet [(0, ⟨[2, 2], .a []⟩), (1, ⟨[2, 2], .a []⟩)] = .ok true := by decide +kernel
 example : pubGuardsHold [abNet] [.mergeBonds 0 0 1, .mergeTensors 0 0 1, .addTensor 0 5 [] [] (some 3)] := by
   refine ⟨?_, ?_, ?_, trivial⟩
   · intro n hn
